@@ -97,3 +97,27 @@ class pair_for_message_hash:
     # totality: whatever the text, the only exception that can leave is EncodingError (which verify_message maps to False)
     raises = [(EncodingError, _any, False)]
     canaries = [("if not pairs:\n        raise EncodingError('no curve point for r')", "if False:\n        raise EncodingError('no curve point for r')")]
+
+
+# ---------------------------------------------------------------- the signed digest
+from spec.sighash import dsha256
+from contracts.c11_base58 import utf8_encode     # str.encode('utf8') as an uninterpreted function of the text
+import contracts.c07_prims  # noqa: F401
+
+
+@contract(T + "hash_for_signing")
+class hash_for_signing:
+    """the message digest: double SHA-256 over var-string(magic) || var-string(message), both UTF-8 encoded, as a number;
+    the magic is '<network name> Signed Message:\\n' (here: Bitcoin)"""
+    props = ["C17"]
+    sig = dict(self=SIGNER, msg=Str(sample_max=30))
+    returns = Int()
+
+    def requires(self, msg):
+        return len(utf8_encode(msg)) < 2 ** 32
+
+    def ensures_digest(self, msg, result):
+        magic = b"Bitcoin Signed Message:\n"
+        return (result == be_int_k(dsha256(varstr(magic) + varstr(utf8_encode(msg))), 32), 0 <= result, result < 2 ** 256)
+
+    canaries = [("stream_satoshi_string(fd, magic.encode('utf8'))", "pass")]
